@@ -189,7 +189,20 @@ type BatchCase struct {
 	// judged when the handler sets an explicit final status, see the
 	// generator's note on informational responses.)
 	Early bool `json:"early,omitempty"`
+	// Veil: the chain is entered with a response writer that shows only the
+	// three http.ResponseWriter methods and Unwrap (what a middleware in front
+	// of the chain that wraps the writer hands on); flushing and hijacking
+	// reach the server's writer through Unwrap.
+	Veil bool `json:"veil,omitempty"`
 }
+
+// veil hides every optional interface of the writer behind Unwrap.
+type veil struct{ w http.ResponseWriter }
+
+func (v veil) Header() http.Header         { return v.w.Header() }
+func (v veil) Write(b []byte) (int, error) { return v.w.Write(b) }
+func (v veil) WriteHeader(code int)        { v.w.WriteHeader(code) }
+func (v veil) Unwrap() http.ResponseWriter { return v.w }
 
 func (c BatchCase) verboseHosts() map[string]bool {
 	m := map[string]bool{}
@@ -582,6 +595,10 @@ func checkBatch(c BatchCase) error {
 					fail("request %s: the handler chain panicked: %v", id, r)
 				}
 			}()
+			if c.Veil {
+				h.ServeHTTP(veil{rr}, req)
+				return
+			}
 			h.ServeHTTP(rr, req)
 		}()
 		select {
@@ -760,6 +777,9 @@ func checkBatch(c BatchCase) error {
 			break
 		}
 	}
+	if c.Veil {
+		vp.Class("batch:server's-writer-behind-an-Unwrap-only-wrapper")
+	}
 	if c.Early && c.Nest == 3 {
 		vp.Class("batch:early-hints-middleware-between-two-log-middlewares")
 	}
@@ -809,6 +829,7 @@ var batchProp = vp.Register(vp.Prop[BatchCase]{
 		c.Nest = rapid.SampledFrom([]int{0, 0, 0, 2, 2, 3}).Draw(t, "nest")
 		c.HandlerMode = rapid.SampledFrom([]int{0, 0, 1, 2}).Draw(t, "handlermode")
 		c.Early = c.Nest == 3 && rapid.Bool().Draw(t, "early")
+		c.Veil = rapid.IntRange(0, 3).Draw(t, "veil") == 0
 		if rapid.IntRange(0, 2).Draw(t, "verbose") == 0 {
 			c.Verbose = rapid.SliceOfN(rapid.IntRange(0, n-1), 1, 3).Draw(t, "verbosereqs")
 		}
